@@ -1,4 +1,110 @@
-import CssVerif.Model.Codec
+/-
+C14 — CSS codec: detection priority, inverse, chunking-invariant.
+
+Model: `Model/Codec.lean` (detection by candidate elimination, text-level detection, @charset
+rewriting, one-shot functions, incremental state machines over an abstract inner codec `I`).
+The inner codec is Python's; the model assumes of it exactly `DecLaw` (feeding a then b = feeding
+a ++ b; failures are not forgotten).
+-/
+import CssVerif.Proofs.Codec
 namespace CssVerif.C14
-theorem placeholder : True := trivial
+open CssVerif CssVerif.Codec
+
+/-- **chunking invariance (decoder)**: for every way of cutting the byte stream into chunks, the
+incremental decoder's concatenated output — or its error — is exactly that of the one-shot function -/
+theorem idecode_chunks (I : Inner) (law : DecLaw I) (chunks : List Bytes) (enc : Option Text) (force : Bool) :
+    (decFeed I (decInit I enc force) chunks).map (·.1) = decode I chunks.flatten enc force := by
+  rw [decFeed_eq I law chunks (decInit I enc force)]
+  exact decStep_oneshot I chunks.flatten enc force
+
+/-- two chunkings of the same bytes give the same result -/
+theorem idecode_chunking_irrelevant (I : Inner) (law : DecLaw I) (c1 c2 : List Bytes)
+    (h : c1.flatten = c2.flatten) (enc : Option Text) (force : Bool) :
+    (decFeed I (decInit I enc force) c1).map (·.1) = (decFeed I (decInit I enc force) c2).map (·.1) := by
+  rw [idecode_chunks I law c1, idecode_chunks I law c2, h]
+
+/-- a detection, once made on a prefix, is never revised by more input -/
+theorem detect_stable (p q : Bytes) (f : Bool) (e : Text) (x : Bool)
+    (h : detectStr p false = (some e, x)) : detectStr (p ++ q) f = (some e, x) :=
+  Codec.detect_stable p q f e x h
+
+/-- a rewritten header is never revised by more input: the rest is passed through -/
+theorem fix_stable (p q e : Text) (f : Bool) (t : Text) (h : fixEncoding p e false = some t) :
+    fixEncoding (p ++ q) e f = some (t ++ q) := Codec.fix_stable p q e f t h
+
+/-- at end of input both the detector and the rewriter always answer -/
+theorem final_total (b : Bytes) (t e : Text) :
+    (∃ n x, detectStr b true = (some n, x)) ∧ (fixEncoding t e true).isSome = true :=
+  ⟨detect_final b, fix_final t e⟩
+
+/-! ### detection priority (decision logic stated outright) -/
+
+/-- an explicit encoding argument (with `force`, the default) wins over anything in the bytes -/
+theorem priority_explicit (I : Inner) (b : Bytes) (e : Text) :
+    decode I b (some e) true = decodeWith I e b := by
+  unfold decode
+  simp
+
+/-- byte-order marks -/
+theorem priority_bom_utf8 (t : Bytes) (f : Bool) :
+    detectStr (0xEF :: 0xBB :: 0xBF :: t) f = (some (ofStr "utf-8-sig"), true) := by
+  cases t <;> simp [detectStr, cands, allCands, compat, pat, patOK, need, candName]
+
+theorem priority_bom_utf16be (t : Bytes) (f : Bool) :
+    detectStr (0xFE :: 0xFF :: t) f = (some (ofStr "utf-16"), true) := by
+  match t with
+  | [] => simp [detectStr, cands, allCands, compat, pat, patOK, need, candName]
+  | [a] => simp [detectStr, cands, allCands, compat, pat, patOK, need, candName]
+  | a :: b :: r => simp [detectStr, cands, allCands, compat, pat, patOK, need, candName]
+
+/-- no candidate pattern fits: UTF-8 -/
+theorem priority_default (b : Bytes) (f : Bool) (h : cands b = []) : detectStr b f = (some utf8, false) := by
+  unfold detectStr
+  rw [h]
+
+theorem findIdx_quote (name rest : Text) (hq : ∀ c ∈ name, c ≠ 34) :
+    (name ++ 34 :: rest).findIdx? (· == 34) = some name.length := by
+  induction name with
+  | nil => simp [List.findIdx?_cons]
+  | cons c cs ih =>
+    have hc34 : (c == 34) = false := by
+      have := hq c List.mem_cons_self
+      simpa using this
+    simp only [List.cons_append, List.findIdx?_cons, hc34, Bool.false_eq_true, if_false]
+    rw [ih (fun x hx => hq x (List.mem_cons_of_mem _ hx))]
+    simp
+
+/-- a complete leading `@charset "name"` rule names the encoding -/
+theorem priority_charset (name rest : Text) (f : Bool) (hq : ∀ c ∈ name, c ≠ 34) :
+    detectStr (charsetPrefix ++ name ++ 34 :: rest) f = (some name, true) := by
+  have hc : cands (charsetPrefix ++ name ++ 34 :: rest) = [.charset] := by
+    have : charsetPrefix ++ name ++ 34 :: rest = [64, 99, 104, 97] ++ ([114, 115, 101, 116, 32, 34] ++ name ++ 34 :: rest) := by
+      simp [charsetPrefix, ofStr]
+    rw [this, cands_long _ _ (by simp)]
+    decide
+  have hname : charsetName (charsetPrefix ++ name ++ 34 :: rest) = some name := by
+    unfold charsetName
+    have hp : charsetPrefix.isPrefixOf (charsetPrefix ++ name ++ 34 :: rest) = true := by
+      rw [List.isPrefixOf_iff_prefix, List.append_assoc]; exact List.prefix_append _ _
+    simp only [hp, if_true]
+    have hfq : findQuote (charsetPrefix ++ name ++ 34 :: rest) charsetPrefix.length = some (charsetPrefix.length + name.length) := by
+      unfold findQuote
+      rw [List.append_assoc, List.drop_left]
+      have := findIdx_quote name rest hq
+      rw [this]
+    simp only [hfq]
+    rw [List.append_assoc, ← List.length_append, ← List.append_assoc, List.take_left]
+    simp
+  unfold detectStr
+  rw [hc]
+  have hl : (charsetPrefix ++ name ++ 34 :: rest).length ≥ need .charset := by
+    simp [need, charsetPrefix_length]; omega
+  simp only [hl, if_true, hname]
+  rfl
+
+/-! non-vacuity -/
+example : detectStr (ofStr "@charset \"latin-1\";a") true = (some (ofStr "latin-1"), true) := by decide
+example : detectStr [0xFF, 0xFE] true = (some (ofStr "utf-16"), true) := by decide
+example : fixEncoding (ofStr "@charset \"x\";a") (ofStr "utf-8") false = some (ofStr "@charset \"utf-8\";a") := by decide
+
 end CssVerif.C14
